@@ -312,7 +312,8 @@ pub fn c03(cx: &Ctx, rep: &mut Report) {
             let hkb = crate::checks_d::hostile_t0_key(p, &hb);
             let hkc = SkCtx::new(p, &hkb);
             if let Ok(Ok(hsk)) = (api.sk_from_bytes)(&hkb) {
-                for m in ["kappa-overflow-0", "kappa-overflow-1"] {
+                // kappa-overflow-524 needs 16 355 attempts with the reference: 29 short of exhausting the 16-bit counter
+                for m in ["kappa-overflow-0", "kappa-overflow-1", "kappa-overflow-524"] {
                     let mp = refmodel::format_message(Mode::Pure, m.as_bytes(), b"").unwrap();
                     let (want, info) = refmodel::sign_internal_ctx(&hkc, &mp, &[0u8; 32], &refmodel::SignOpts { max_iters: 16384, ..Default::default() });
                     let Some(want) = want else {
@@ -550,12 +551,16 @@ pub fn rare_keygen_seeds(p: &'static Params, _verif_seed: u64, cap: u64) -> Vec<
     let mut out: Vec<(String, [u8; 32])> = known.into_iter().map(|(n, h)| (n, refmodel::unhex(&h).try_into().unwrap())).collect();
     // committed result of `mc raresearch expands` (8e7 reference ExpandS runs): seeds for which one RejBoundedPoly call
     // consumes the most SHAKE256 output (eta = 4: 288..294 bytes, i.e. deep into the third block)
-    if let Ok(text) = std::fs::read_to_string(format!("{}/witnesses/expand_s_long.json", crate::report::verif_root())) {
-        if let Ok(v) = serde_json::from_str::<serde_json::Value>(&text) {
-            for w in v["witnesses"].as_array().cloned().unwrap_or_default() {
-                if w["set"].as_u64() == Some(p.id as u64) {
-                    if let Ok(xi) = <[u8; 32]>::try_from(refmodel::unhex(w["seed"].as_str().unwrap_or(""))) {
-                        out.push((format!("ExpandS_polynomial_consumes_{}_bytes", w["bytes"]), xi));
+    // likewise `mc raresearch expanda` (1.5e6 reference ExpandA runs per set): seeds whose matrix contains the RejNTTPoly call
+    // that rejects the most candidates (6-7 rejections, 786-789 bytes)
+    for (file, what) in [("expand_s_long.json", "ExpandS"), ("expand_a_long.json", "ExpandA")] {
+        if let Ok(text) = std::fs::read_to_string(format!("{}/witnesses/{file}", crate::report::verif_root())) {
+            if let Ok(v) = serde_json::from_str::<serde_json::Value>(&text) {
+                for w in v["witnesses"].as_array().cloned().unwrap_or_default() {
+                    if w["set"].as_u64() == Some(p.id as u64) {
+                        if let Ok(xi) = <[u8; 32]>::try_from(refmodel::unhex(w["seed"].as_str().unwrap_or(""))) {
+                            out.push((format!("{what}_polynomial_consumes_{}_bytes", w["bytes"]), xi));
+                        }
                     }
                 }
             }
